@@ -550,3 +550,18 @@ Proof.
   intros chain cs D. exists (expected chain cs). split; [apply run_model_exact; exact D|].
   split; [reflexivity|]. rewrite <- run_closed_form. apply chain_fixpoint.
 Qed.
+
+(* ---- outside the domain: cues shorter than the resolution (recorded findings) ------------- *)
+(* sorted, non-overlapping, positive length - but shorter than one millisecond *)
+Lemma short_cues_srt_merge_refuted :
+  exists chain cs, sorted_from 1 0 82800000000 cs = true /\ run_model chain cs <> Ok (expected chain cs).
+Proof.
+  exists [FDfxp; FSrt], [(1000, 1400); (1500, 1900); (5000, 9000)].
+  split; [reflexivity|]. vm_compute. discriminate.
+Qed.
+
+Lemma short_cue_sami_end_refuted :
+  exists cs, sorted_from 1 0 82800000000 cs = true /\ hop FSami cs <> Ok (pi FSami cs).
+Proof.
+  exists [(1000, 1400); (3000, 4000)]. split; [reflexivity|]. vm_compute. discriminate.
+Qed.
